@@ -16,21 +16,27 @@ Mutations == {"none",     \* untouched
               "otherbytes", \* the bytes of the genuine part (j+1) % total under the proof of part j
               "aunt",     \* one aunt hash replaced
               "extra",    \* one aunt inserted
-              "missing"}  \* one aunt dropped
+              "missing",  \* one aunt dropped
+              "noproof"}  \* all aunts dropped (the aunt-less proof; offered only where the genuine proof has aunts)
+Headers == {"genuine",    \* the header of the sender's set: Total and the Merkle root of the genuine parts
+            "emptyroot"}  \* a crafted header (a proposal may carry any): the right Total, Hash nil or zero-length.
+                          \* NewPartSetFromData never produces it for >= 1 part: under it NO part is genuine.
 Results == {"added", "dup", "errIndex", "errProof"}
 None == <<>>
 
 VARIABLES
+  hdr,      \* which header the receiver was built from (NewPartSetFromHeader)
   total,    \* header.Total
   have,     \* {i : ps.parts[i] # nil}  (= partsBitArray)
   count,    \* ps.count
   content,  \* [0..total-1 -> None or <<j, c>>] what is stored at each index
   res       \* output only
 
-pvars == <<total, have, count, content, res>>
-pview == <<total, have, count, content>>
+pvars == <<hdr, total, have, count, content, res>>
+pview == <<hdr, total, have, count, content>>
 
 PInit ==
+  /\ hdr \in Headers
   /\ total \in 1..MaxParts
   /\ have = {}
   /\ count = 0
@@ -47,18 +53,25 @@ ProofsOf(t, j, c) ==
     [] c = "aunt"    -> {[au EXCEPT ![x[1]] = x[2]] : x \in {y \in (1..Len(au)) \X U : y[2] # au[y[1]]}}
     [] c = "extra"   -> {SubSeq(au, 1, p) \o <<h>> \o SubSeq(au, p + 1, Len(au)) : p \in 0..Len(au), h \in U}
     [] c = "missing" -> {SubSeq(au, 1, p - 1) \o SubSeq(au, p + 1, Len(au)) : p \in 1..Len(au)}
+    [] c = "noproof" -> IF Len(au) > 0 THEN {<<>>} ELSE {}
 
 CanOffer(t, j, c) == j \in 0..(t - 1) /\ ProofsOf(t, j, c) # {}
 
 (* part.Proof.Verify(part.Index, ps.total, part.Hash(), ps.Hash()) for one / every concretisation *)
-SomeAccept(t, i, j, c) == \E au \in ProofsOf(t, j, c) : Verify(i, t, LeafOf(t, j, c), au, RootOf(t))
-AllAccept(t, i, j, c)  == \A au \in ProofsOf(t, j, c) : Verify(i, t, LeafOf(t, j, c), au, RootOf(t))
+(* ps.Hash(): the root the receiver compares with.  An empty []byte and nil are both the symbolic NilH. *)
+RootFor(h, t) == IF h = "genuine" THEN RootOf(t) ELSE NilH
+
+SomeAcceptH(h, t, i, j, c) == \E au \in ProofsOf(t, j, c) : Verify(i, t, LeafOf(t, j, c), au, RootFor(h, t))
+AllAcceptH(h, t, i, j, c)  == \A au \in ProofsOf(t, j, c) : Verify(i, t, LeafOf(t, j, c), au, RootFor(h, t))
+SomeAccept(t, i, j, c) == SomeAcceptH("genuine", t, i, j, c)
+AllAccept(t, i, j, c)  == AllAcceptH("genuine", t, i, j, c)
 
 Claimed == (0 - MaxParts - 1)..(MaxParts + 1)
 
 (* the proof check of every offerable part, computed once (constant) *)
-Accepts == [t \in 1..MaxParts |->
-              [x \in Claimed \X (0..(t - 1)) \X Mutations |-> CanOffer(t, x[2], x[3]) /\ AllAccept(t, x[1], x[2], x[3])]]
+AcceptsH == [h \in Headers |-> [t \in 1..MaxParts |->
+              [x \in Claimed \X (0..(t - 1)) \X Mutations |-> CanOffer(t, x[2], x[3]) /\ AllAcceptH(h, t, x[1], x[2], x[3])]]]
+Accepts == AcceptsH["genuine"]
 
 Offerable(j, c) == CanOffer(total, j, c)
 
@@ -66,7 +79,7 @@ Offerable(j, c) == CanOffer(total, j, c)
 Result(i, j, c) ==
   IF i < 0 \/ i >= total THEN "errIndex"
   ELSE IF i \in have THEN "dup"                     \* (false, nil) whatever the content
-  ELSE IF Accepts[total][<<i, j, c>>] THEN "added"
+  ELSE IF AcceptsH[hdr][total][<<i, j, c>>] THEN "added"
   ELSE "errProof"
 
 AddPart(i, j, c, r) ==
@@ -77,8 +90,8 @@ AddPart(i, j, c, r) ==
        THEN /\ have' = have \cup {i}
             /\ count' = count + 1
             /\ content' = [content EXCEPT ![i] = <<j, c>>]
-            /\ UNCHANGED total
-       ELSE UNCHANGED <<total, have, count, content>>
+            /\ UNCHANGED <<hdr, total>>
+       ELSE UNCHANGED <<hdr, total, have, count, content>>
 
 PNext == \E i \in Claimed, j \in 0..(MaxParts - 1), c \in Mutations, r \in Results :
             AddPart(i, j, c, r)
@@ -100,10 +113,21 @@ ProofCheckExact ==
   \A t \in 1..MaxParts : \A i \in Claimed, j \in 0..(t - 1), c \in Mutations :
      CanOffer(t, j, c) => (Accepts[t][<<i, j, c>>] <=> (i = j /\ c = "none"))
 
-(* a part is accepted if and only if it is the genuine part at its index (and not there yet) *)
+(* ... for every header; under the crafted empty-root header the proof check accepts nothing at all (constant) *)
+ClassesUniformAllHeaders ==
+  \A h \in Headers, t \in 1..MaxParts : \A i \in Claimed, j \in 0..(t - 1), c \in Mutations :
+     CanOffer(t, j, c) => (SomeAcceptH(h, t, i, j, c) <=> AllAcceptH(h, t, i, j, c))
+EmptyRootAcceptsNothing ==
+  \A t \in 1..MaxParts : \A i \in Claimed, j \in 0..(t - 1), c \in Mutations :
+     CanOffer(t, j, c) => ~SomeAcceptH("emptyroot", t, i, j, c)
+
+(* a part is accepted if and only if it is the genuine part at its index for the receiver's header (and not there yet) *)
 OnlyGenuineAccepted ==
   [][ res'.op = "AddPart" =>
-        ( res'.r = "added" <=> ( res'.i = res'.j /\ res'.c = "none" /\ res'.i \notin have ) ) ]_pvars
+        ( res'.r = "added" <=> ( hdr = "genuine" /\ res'.i = res'.j /\ res'.c = "none" /\ res'.i \notin have ) ) ]_pvars
+
+(* a receiver built from the crafted header never holds a part and never completes *)
+EmptyHeaderNeverFills == hdr # "genuine" => (have = {} /\ count = 0 /\ count # total)
 
 (* ... so everything stored is genuine, counted once *)
 StoredGenuine ==
@@ -113,7 +137,7 @@ StoredGenuine ==
 
 (* a rejected or duplicate part leaves the set exactly as it was *)
 RejectLeavesSetUnchanged ==
-  [][ (res'.op = "AddPart" /\ res'.r # "added") => UNCHANGED <<total, have, count, content>> ]_pvars
+  [][ (res'.op = "AddPart" /\ res'.r # "added") => UNCHANGED <<hdr, total, have, count, content>> ]_pvars
 
 (* IsComplete() <=> every index holds its genuine part: the reader yields the original bytes *)
 ReassemblyExact == (count = total) <=> (\A i \in 0..(total - 1) : content[i] = <<i, "none">>)
